@@ -306,12 +306,19 @@ pub fn gen_case_growth(rng: &mut Rng, force_rc: Option<bool>) -> Case {
 		cols.push(ColCfg { btree: rng.chance(1, 2), rc: false, preimage: false, uniform: false, compression: 0, threshold: 4096 });
 	}
 	let page = [rng.below(256) as u8, rng.below(256) as u8];
+	// deep mode: the keys also share bit 17, so that the 17-bit index overflows as well and a second
+	// growth starts while the first one may still be queued
+	let deep = rng.chance(1, 3);
+	let bit17 = (rng.below(2) as u8) << 7;
 	let mut keys: Vec<Vec<Vec<u8>>> = Vec::new();
 	let mut k0: Vec<Vec<u8>> = Vec::new();
 	while k0.len() < nkeys {
 		let mut k = rng.bytes(32);
 		k[0] = page[0];
 		k[1] = page[1];
+		if deep {
+			k[2] = (k[2] & 0x7f) | bit17;
+		}
 		match rng.below(6) {
 			// same page AND same partial key as an earlier key: only the tail differs
 			0 if !k0.is_empty() => {
@@ -323,6 +330,9 @@ pub fn gen_case_growth(rng: &mut Rng, force_rc: Option<bool>) -> Case {
 				let other = rng.pick(&k0).clone();
 				k[..2].copy_from_slice(&other[..2]);
 				k[2] = (other[2] & 0xc0) | (k[2] & 0x3f);
+				if deep {
+					k[2] = (k[2] & 0x7f) | bit17;
+				}
 			},
 			_ => (),
 		}
@@ -383,7 +393,7 @@ pub fn gen_case_growth(rng: &mut Rng, force_rc: Option<bool>) -> Case {
 		steps.extend([Step::Process, Step::Process, Step::Flush, Step::EnactAll, Step::Reindex, Step::Flush, Step::EnactAll, Step::Clean]);
 	}
 	steps.push(Step::Reopen);
-	Case { cols, keys, steps, salt_zero: true, class: "c09".to_string() }
+	Case { cols, keys, steps, salt_zero: true, class: if force_rc.is_some() { "c09rc".to_string() } else { "c09".to_string() } }
 }
 
 pub fn case_tokens(case: &Case) -> Vec<u64> {
@@ -605,7 +615,7 @@ pub fn run_impl(case: &Case, dir: &std::path::Path) -> Run {
 					}
 				}
 			}
-			if case.class == "c09" {
+			if case.class.starts_with("c09") {
 				let mut gens = 0;
 				if let Ok(rd) = std::fs::read_dir(dir) {
 					for e in rd.flatten() {
@@ -692,7 +702,7 @@ pub fn canonicalise(case: &mut Case) {
 /// C07: on counted columns a key with positive count is readable; when nothing is queued
 /// (every accepted commit processed) readable iff count positive.
 pub fn oracle(case: &Case, run: &Run) -> Result<(), String> {
-	let check_iter = case.class == "c07" || case.class == "replay" || (case.class == "c09" && case.cols[0].rc);
+	let check_iter = case.class == "c07" || case.class == "replay" || case.class == "c09rc";
 	if let Some(p) = &run.panicked {
 		return Err(format!("panic the implementation panicked: {}", p.chars().take(200).collect::<String>()))
 	}
@@ -886,13 +896,13 @@ pub fn main(args: &[String], kind: &str) -> i32 {
 			};
 			*dist.entry(format!("step-{name}")).or_insert(0) += 1;
 		}
-		if case.class == "c09" {
+		if case.class.starts_with("c09") {
 			*dist.entry(format!("max-index-bits-{}", run.max_bits)).or_insert(0) += 1;
 			if run.coexisted {
 				*dist.entry("two-index-generations-coexisted".into()).or_insert(0) += 1;
 			}
 		}
-		let nt = if case.class == "c09" { run.max_bits > 16 } else { nontrivial(&case) };
+		let nt = if case.class.starts_with("c09") { run.max_bits > 16 } else { nontrivial(&case) };
 		if nt {
 			use std::hash::{Hash, Hasher};
 			let mut h = std::collections::hash_map::DefaultHasher::new();
